@@ -11,6 +11,7 @@ import json
 import os
 import random
 
+from rv import formats
 from rv import fmt_images as F
 from rv.model import domains
 
@@ -144,6 +145,9 @@ def run_shard(ctx):
             break
         force = FORCES[(i // 2) % len(FORCES)] if i % 2 == 0 else None
         D = F.gen_description(rng, force, type_cycle=i * 7 if i % 3 == 0 else None)
+        if force is None and rng.random() < 0.1:
+            formats.equalise("images", D, rng)
+            ctx.count("fields-made-equal")
         order_seed = rng.randrange(1 << 30)
         written = check_case(ctx, pm, D, order_seed, tmpdir)
         if written:
